@@ -2,24 +2,152 @@
 C20 — coverage obtained through external tools. The LLVM half is decision logic that can be
 stated outright over the `LlvmTools` model; the tools are parameters. The GCC half ("equals what
 gcov itself prints") is a statement about an external program and is *checked* by the
-correspondence run (generated C programs, gcc --coverage, gcov -b -c text read independently);
-its Lean content is C09 (JSON fidelity) and C02 (exactly once), not repeated here.
+correspondence run (generated C programs and multi-unit gcc/g++ programs, gcc --coverage,
+gcov -b -c text read independently); its Lean content is C09 (JSON fidelity) and C02 (exactly once),
+not repeated here.
+
+"Handed to the profile-merge tool exactly once" is stated about what llvm-profdata READS
+(`parseList`, a model of its list-file syntax taken from its source and tied to the real
+llvm-profdata 14 by the harness), not about the lines grcov writes: since fix 4f2eb74 every line is
+`1,<path>`, so commas, a leading '#' and leading blanks in a path are harmless. What still breaks
+is stated with closed witnesses: a path that ENDS in a blank (llvm-profdata trims it), a line feed
+in a path, a path that is not UTF-8 (`to_string_lossy`).
+
+"Every executable is exported exactly once per merged profile" is stated over the LOG of tool
+invocations of a whole run (`runLog`: several LLVM work items, each with its own merged profile),
+which the harness records from the stand-in tools — including the content of the
+`--instr-profile` file at the moment of each export.
 -/
-import GrcovModel.LlvmTools
+import GrcovModel.Lemmas.LlvmTools
 import GrcovModel.Props.C01
 import GrcovModel.Props.C20Consumer
 import GrcovModel.Props.C20FindBin
+import GrcovModel.Props.C20WorkDirs
+import GrcovModel.Props.C20Llvm
+import GrcovModel.Props.C20C19
 namespace Grcov.Props.C20
 open Grcov AList Grcov.LlvmTools
 
-/-- Every profile path is handed to the merge tool exactly once: the lines of its stdin are the
-profile list itself (paths contain no newline). -/
-theorem C20_each_profile_once (profiles : List Bytes) (h : ∀ p ∈ profiles, 10 ∉ p) :
-    lines (mergeStdin profiles) = profiles := lines_mergeStdin profiles h
+/-! ### every profile is handed to the merge tool exactly once -/
 
-theorem C20_profile_count (profiles : List Bytes) (h : ∀ p ∈ profiles, 10 ∉ p) (p : Bytes) :
-    (lines (mergeStdin profiles)).count p = profiles.count p := by
-  rw [lines_mergeStdin profiles h]
+/-- Full statement: whatever the profile paths, llvm-profdata takes from grcov's list exactly the
+profile paths, each with weight 1, in order. FALSE of the code (and of any line-based list). -/
+def C20_merge_list_stmt : Prop :=
+  ∀ ps : List Bytes, parseList (mergeStdin ps) = some (ps.map fun p => (1, p))
+
+/-- Witness: the profile `a ` (trailing space) is looked up as `a`. -/
+theorem C20_merge_list_false : ¬ C20_merge_list_stmt := by
+  intro h
+  have := h [[97, 32]]
+  revert this
+  decide
+
+/-- For paths that are UTF-8, contain no line feed and do not END in a blank (space, \t, \v, \f,
+\r) — commas, '#', leading and inner blanks allowed — llvm-profdata reads exactly the profile list,
+every entry with weight 1: every profile exactly once. -/
+theorem C20_merge_list_partial (ps : List Bytes) (h : ∀ p ∈ ps, ListSafe p) :
+    parseList (mergeStdin ps) = some (ps.map fun p => (1, p)) := parseList_mergeStdin ps h
+
+/-- The same, entry by entry: no entry is a comment, none has a bad weight. -/
+theorem C20_each_profile_once (ps : List Bytes) (h : ∀ p ∈ ps, ListSafe p) :
+    (entries (mergeStdin ps)).map parseEntry = ps.map fun p => EntryRes.file 1 p :=
+  entries_parse_mergeStdin ps h
+
+theorem C20_profile_count (ps : List Bytes) (h : ∀ p ∈ ps, ListSafe p) (p : Bytes) :
+    ((parseList (mergeStdin ps)).getD []).count (1, p) = ps.count p := by
+  rw [parseList_mergeStdin ps h, Option.getD_some]
+  exact count_weight_one ps p
+
+/-- Each clause of the guard is needed: a trailing blank is trimmed (a different file is looked
+up), a line feed splits the path into two entries, a non-UTF-8 byte becomes U+FFFD. -/
+theorem C20_merge_list_guard_witnesses :
+    parseList (mergeStdin [[97, 9]]) = some [(1, [97])] ∧
+    parseList (mergeStdin [[97, 10, 98]]) = some [(1, [97]), (1, [98])] ∧
+    parseList (mergeStdin [[97, 255]]) = some [(1, [97, 239, 191, 189])] := by
+  decide
+
+/-- Regression (the list before fix 4f2eb74, finding C20-profile-path-with-comma): a comma in a
+path ended llvm-profdata ("input weight must be a positive integer": all LLVM coverage lost), a
+path starting with '#' was silently skipped as a comment, leading blanks were trimmed. The same
+three paths are read correctly from the list written today. -/
+theorem C20_merge_list_old_format_witnesses :
+    parseList (mergeStdinOld [[97, 44, 98]]) = none ∧
+    parseList (mergeStdinOld [[35, 97], [99]]) = some [(1, [99])] ∧
+    parseList (mergeStdinOld [[32, 97]]) = some [(1, [97])] ∧
+    parseList (mergeStdin [[97, 44, 98], [35, 97], [32, 97]])
+      = some [(1, [97, 44, 98]), (1, [35, 97]), (1, [32, 97])] := by
+  decide
+
+/-- A weight is decimal digits only, at least 1, within 64 bits (`getAsInteger(10, uint64_t)`). -/
+theorem C20_list_weight_syntax :
+    parseEntry [51, 44, 120] = .file 3 [120] ∧ parseEntry [48, 44, 120] = .badWeight ∧
+    parseEntry [43, 49, 44, 120] = .badWeight ∧ parseEntry [49, 32, 44, 120] = .badWeight ∧
+    parseEntry [44, 120] = .badWeight ∧ parseEntry [32, 35, 120] = .comment ∧
+    parseEntry [49, 44, 97, 44, 98] = .file 1 [97, 44, 98] ∧
+    parseEntry [49, 56, 52, 52, 54, 55, 52, 52, 48, 55, 51, 55, 48, 57, 53, 53, 49, 54, 49, 54, 44, 120]
+      = .badWeight := by
+  decide
+
+/-! ### the tool log of a run -/
+
+/-- One merge invocation per LLVM work item, in item order, each fed that item's list. -/
+theorem C20_merge_once_per_item (t : Tools) (bins : List Bytes) (items : List (List Bytes)) :
+    mergeLog (runLog t bins items) = items.map mergeStdin := mergeLog_run t bins items
+
+/-- The export log of a run: for every item whose merge succeeded, every binary that
+`find_binaries` returned, pointed at THAT item's merged profile — nothing else. -/
+theorem C20_export_log (t : Tools) (bins : List Bytes) (items : List (List Bytes)) :
+    exportLog (runLog t bins items) = (mergedItems t items).flatMap fun pd => bins.map (·, pd) :=
+  exportLog_run t bins items
+
+/-- Every binary `find_binaries` returned (it returns no path twice) is exported exactly once per
+merged profile: as many export invocations name it as there are merges that succeeded. -/
+theorem C20_export_once_per_merged_profile (t : Tools) (bins : List Bytes) (items : List (List Bytes))
+    (hn : bins.Nodup) (b : Bytes) (hb : b ∈ bins) :
+    ((exportLog (runLog t bins items)).filter fun e => decide (e.1 = b)).length
+      = (mergedItems t items).length := by
+  rw [exportLog_run, filter_fst_flatMap, count_eq_one_of_mem_nodup hn hb, Nat.mul_one]
+
+/-- … and each of these exports reads the profile its own item merged: the pair (binary, merged
+profile) occurs once for every item that merged to this profile, never for another content. -/
+theorem C20_export_against_own_profile (t : Tools) (bins : List Bytes) (items : List (List Bytes))
+    (hn : bins.Nodup) (b : Bytes) (hb : b ∈ bins) (pd : Bytes) :
+    (exportLog (runLog t bins items)).count (b, pd) = (mergedItems t items).count pd := by
+  rw [exportLog_run, count_flatMap_pairs, count_eq_one_of_mem_nodup hn hb, Nat.mul_one]
+
+/-- A binary that was not returned is never exported. -/
+theorem C20_export_only_found (t : Tools) (bins : List Bytes) (items : List (List Bytes))
+    (e : Bytes × Bytes) (he : e ∈ exportLog (runLog t bins items)) :
+    e.1 ∈ bins ∧ e.2 ∈ mergedItems t items := by
+  rw [exportLog_run] at he
+  obtain ⟨pd, hpd, hm⟩ := List.mem_flatMap.1 he
+  obtain ⟨b, hb, rfl⟩ := List.mem_map.1 hm
+  exact ⟨hb, hpd⟩
+
+/-- A failing export of one binary does not suppress the others: the result of one call holds
+what every binary's export printed, for every binary whose export succeeded. -/
+theorem C20_failure_is_isolated_call (t : Tools) (bins : List Bytes) (ps : List Bytes) (pd : Bytes)
+    (hm : merged t ps = some pd) (b : Bytes) (hb : b ∈ bins) (r : Bytes) (hr : t.export_ b pd = some r) :
+    ∃ rs, (profilesToLcov t bins ps).2 = some rs ∧ r ∈ rs := by
+  rw [profilesToLcov_result, hm]
+  exact ⟨_, rfl, List.mem_filterMap.2 ⟨b, hb, hr⟩⟩
+
+/-- A failing merge (tool error, bad list, missing profile) makes the call an `Err`: no export. -/
+theorem C20_failed_merge_no_export (t : Tools) (bins : List Bytes) (ps : List Bytes)
+    (hm : merged t ps = none) : profilesToLcov t bins ps = ([.merge (mergeStdin ps)], none) := by
+  simp [profilesToLcov, hm]
+
+/-- The report entry of a file after a run is the C01 aggregation of exactly the file records the
+successful exports of all items contain for it. -/
+theorem C20_report_run_is_aggregate (branch : Bool) (t : Tools) (bins : List Bytes)
+    (items : List (List Bytes)) (k : Key) :
+    get? (reportRun branch t bins items) k
+      = foldInto none ((((runExports t bins items).flatMap (contribution branch)).filter
+          fun kc => kc.1 = k).map (·.2)) := by
+  simpa [reportRun, reportOf] using
+    get?_addResults id [] ((runExports t bins items).flatMap (contribution branch)) k
+
+/-! ### one call, binaries with canned exports (the first model of this property) -/
 
 /-- One export result per binary whose export succeeded … -/
 theorem C20_one_export_per_binary (bins : List Binary) :
@@ -27,7 +155,7 @@ theorem C20_one_export_per_binary (bins : List Binary) :
   induction bins with
   | nil => rfl
   | cons b bs ih =>
-    cases h : b.export_ <;> simp [exports, List.filterMap_cons, h] at ih ⊢ <;> exact ih
+    cases h : b.export_ <;> simp [exports, h] at ih ⊢ <;> exact ih
 
 /-- … and a failing export of one binary does not suppress the others. -/
 theorem C20_failure_is_isolated (bins : List Binary) (b : Binary) (hb : b ∈ bins) (r : Bytes)
@@ -41,10 +169,52 @@ theorem C20_report_is_aggregate (branch : Bool) (bins : List Binary) (k : Key) :
     get? (report branch bins) k
       = foldInto none ((((exports bins).flatMap (contribution branch)).filter
           fun kc => kc.1 = k).map (·.2)) := by
-  simpa [report] using get?_addResults id [] ((exports bins).flatMap (contribution branch)) k
+  simpa [report, reportOf] using get?_addResults id [] ((exports bins).flatMap (contribution branch)) k
 
-/-- non-vacuity -/
-example : lines (mergeStdin [[97, 47, 98], [99]]) = [[97, 47, 98], [99]] := by decide
+/-! ### the same program twice under --binary-path -/
+
+/-- Full statement behind the title ("equals the toolchain's own account"): a program that is
+present twice under `--binary-path` (its object file beside the linked executable, a hard link or
+copy such as cargo's `target/debug/foo` and `deps/foo-<hash>`) — so that two exports print the same
+lcov — is counted once. FALSE of the code: `find_binaries` returns every file that sniffs as an
+application (`infer::is_app` accepts `ET_REL`), each is exported, every count doubles. -/
+def C20_no_double_count_stmt : Prop :=
+  ∀ (branch : Bool) (bins : List Binary),
+    ∀ k, get? (report branch bins) k = get? (reportOf branch (dedup (exports bins))) k
+
+/-- `SF:a / DA:1,1 / end_of_record` -/
+def twinLcov : Bytes :=
+  [83, 70, 58, 97, 10, 68, 65, 58, 49, 44, 49, 10, 101, 110, 100, 95, 111, 102, 95, 114, 101, 99, 111, 114, 100, 10]
+
+/-- Witness: `p` and `p.o` both export `SF:a / DA:1,1`; the report says `DA:1,2`.
+Finding C20-same-program-exported-twice. -/
+theorem C20_no_double_count_false : ¬ C20_no_double_count_stmt := by
+  intro h
+  have := h false [⟨[112], some twinLcov⟩, ⟨[112, 46, 111], some twinLcov⟩] [97]
+  revert this
+  decide +kernel
+
+/-- Provable part: when no two exports print the same bytes, nothing is counted twice. -/
+theorem C20_no_double_count_partial (branch : Bool) (bins : List Binary) (h : (exports bins).Nodup) :
+    report branch bins = reportOf branch (dedup (exports bins)) := by
+  rw [dedup_of_nodup h]; rfl
+
+/-! ### non-vacuity -/
+
+-- names with a comma, a leading '#', a leading and an inner blank, and `é` are all safe
+example : ∀ p ∈ [[97, 44, 98], [35, 97], [32, 97, 32, 98], [195, 169]], ListSafe p := by decide
+example : parseList (mergeStdin [[97, 47, 98], [99]]) = some [(1, [97, 47, 98]), (1, [99])] := by decide
 example : exports [⟨[1], some [83]⟩, ⟨[2], none⟩, ⟨[3], some [84]⟩] = [[83], [84]] := by decide
+
+/-- two items (raw and indexed profiles), two binaries, the second fails against the first
+profile: three exports in the log, each against its own item's profile -/
+def exTools : Tools where
+  merge l := some (l.flatMap (·.2))
+  export_ b pd := if b = [2] ∧ pd = [120] then none else some (b ++ pd)
+
+example : exportLog (runLog exTools [[1], [2]] [[[120]], [[121], [122]]])
+    = [([1], [120]), ([2], [120]), ([1], [121, 122]), ([2], [121, 122])] := by decide
+example : runExports exTools [[1], [2]] [[[120]], [[121], [122]]]
+    = [[1, 120], [1, 121, 122], [2, 121, 122]] := by decide
 
 end Grcov.Props.C20
